@@ -410,6 +410,32 @@ func Gen(seed int64, index int, o GenOpts) *Case {
 
 	// ---- profile-specific shaping of the leading video track
 	lp := plans[lead]
+	if (o.Profile == "general" || o.Profile == "long") && lp.spec.Kind.IsVideo() && !lp.spec.BFrames && lp.spec.ClockRate == 90000 &&
+		gopGrowth == 0 && (uint64(seed)*3+uint64(index))%5 == 2 {
+		// segments that last exactly 0.5, 1.5 or 2.5 s: the rounding of EXT-X-TARGETDURATION at the
+		// half second (20 fps, a key frame every 10, 30 or 50 frames, SegmentMinDuration below that)
+		k := int((uint64(seed) + uint64(index)/5) % 3)
+		lp.frameTicks = []int64{4500}
+		lp.gop = 10 * (2*k + 1)
+		if (index/5)%2 == 0 {
+			// half a millisecond above the half second (one frame in every GOP is 45 ticks longer):
+			// x.5 exactly is a tie that either rounding may resolve, x.5005 is not
+			lp.frameTicks = make([]int64, lp.gop)
+			for i := range lp.frameTicks {
+				lp.frameTicks[i] = 4500
+			}
+			lp.frameTicks[lp.gop/2] = 4545
+		}
+		if c.Cfg.SegMin > 400*time.Millisecond {
+			c.Cfg.SegMin = []time.Duration{200 * time.Millisecond, 333 * time.Millisecond, 400 * time.Millisecond}[k]
+		}
+		segMinSec = float64(lp.gop) * 0.05
+		totalSec = segMinSec * float64(nSegs) * 1.3
+		delete(c.Features, "jitter")
+		delete(c.Features, "irregular")
+		delete(c.Features, "zerodur")
+		c.Features["half-second-segments"] = true
+	}
 	if o.Profile == "exact" && lp.spec.Kind.IsVideo() && !lp.spec.BFrames {
 		rate := int64(lp.spec.ClockRate)
 		// frame duration and start time are integral numbers of nanoseconds, so that "exactly at
@@ -507,6 +533,13 @@ func Gen(seed int64, index int, o GenOpts) *Case {
 	var events []event
 	ord := 0
 	ntpBase := time.Date(2023, 5, 17, 10, 0, 0, 0, time.UTC).Add(time.Duration(pick(1000000)) * time.Millisecond)
+	if (uint64(seed)+uint64(index)*3)%4 == 1 {
+		// the application's wall clock is in a local time zone (time.Now() on a host that is not set
+		// to UTC): the instants are what counts
+		off := []int{2 * 3600, -(3*3600 + 1800), 5*3600 + 2700, -8 * 3600}[(uint64(seed)+uint64(index))%4]
+		ntpBase = ntpBase.In(time.FixedZone("", off))
+		c.Features["ntp-zone"] = true
+	}
 	ntpMode := pick(4) // 0 linear, 1 jitter, 2 arbitrary, 3 linear with a step at every random-access unit
 	if o.Profile == "e2e" {
 		// paced in real time: wall-clock time advances with the media time, possibly with steps
